@@ -22,6 +22,7 @@
 mod entries;
 mod exercise;
 mod parts;
+mod probe;
 
 use arrow_array::*;
 use arrow_buffer::Buffer;
@@ -34,12 +35,20 @@ use vcore::mk::{self, Cfg};
 use vcore::trace::Shards;
 use vcore::{dump, guarded, json, Args, Rng, Value};
 
+enum Pending {
+    Event(Value, Option<ArrayData>),
+    NextEpisode,
+}
+
 struct Ctx {
     t: Shards,
+    pending: Vec<Pending>,
+    to_exercise: usize,
     events: usize,
     accepted: usize,
     candidates: usize,
     exercised: usize,
+    ex_ms: u128,
 }
 
 fn short(s: &str) -> String {
@@ -50,26 +59,18 @@ fn short(s: &str) -> String {
 
 impl Ctx {
     #[allow(clippy::too_many_arguments)]
-    fn emit(&mut self, entry: &str, cls: &str, fam: &str, corr: &str, aligns: bool, d: Value, v: Verdict, exercise_it: bool) {
-        let (accepted, note, got, after) = match v {
+    fn emit(&mut self, e: &str, entry: &str, cls: &str, fam: &str, corr: &str, aligns: bool, d: Value, v: Verdict, exercise_it: bool) {
+        let (accepted, note, got, data) = match v {
             Verdict::NotApplicable => return,
-            Verdict::Rejected(e) => (false, short(&e), None, "none".to_string()),
-            Verdict::Accepted(data) => {
-                let got = dump::to_layout(&data);
-                let after = if exercise_it {
-                    self.exercised += 1;
-                    exercise::exercise(move || make_array(data))
-                } else {
-                    "ok".to_string()
-                };
-                (true, String::new(), Some(got), after)
-            }
+            Verdict::Rejected(e) => (false, short(&e), None, None),
+            Verdict::Accepted(data) => (true, String::new(), Some(dump::to_layout(&data)), if exercise_it { Some(data) } else { None }),
         };
         if dump::weight(&d) > 60_000 {
             return;
         }
-        let mut ev = json!({"ev": "cand", "entry": entry, "cls": cls, "fam": fam, "corr": corr, "aligns": aligns,
-            "accepted": accepted, "d": d, "has_got": got.is_some(), "after": after, "note": note});
+        let mut ev = json!({"ev": "cand", "e": e, "entry": entry, "cls": cls, "fam": fam, "corr": corr, "aligns": aligns,
+            "accepted": accepted, "d": d, "has_got": got.is_some(), "after": if accepted { "ok" } else { "none" },
+            "crashed": false, "panicked": false, "note": note});
         if let Some(g) = got {
             ev.as_object_mut().unwrap().insert("got".into(), g);
         }
@@ -77,7 +78,50 @@ impl Ctx {
         if accepted {
             self.accepted += 1;
         }
-        self.t.emit(ev);
+        if data.is_some() {
+            self.to_exercise += 1;
+        }
+        self.pending.push(Pending::Event(ev, data));
+        if self.to_exercise >= 400 {
+            self.flush();
+        }
+    }
+
+    fn raw(&mut self, ev: Value) {
+        self.events += 1;
+        self.pending.push(Pending::Event(ev, None));
+    }
+
+    fn next_episode(&mut self) {
+        self.pending.push(Pending::NextEpisode);
+    }
+
+    /// exercise the accepted results of the pending events (isolated), then write the events
+    fn flush(&mut self) {
+        let items: Vec<ArrayData> = self.pending.iter().filter_map(|p| match p {
+            Pending::Event(_, Some(d)) => Some(d.clone()),
+            _ => None,
+        }).collect();
+        let t0 = std::time::Instant::now();
+        self.exercised += items.len();
+        let mut results = exercise::exercise_batch(items).into_iter();
+        self.ex_ms += t0.elapsed().as_millis();
+        for p in std::mem::take(&mut self.pending) {
+            match p {
+                Pending::NextEpisode => self.t.next_episode(),
+                Pending::Event(mut ev, d) => {
+                    if d.is_some() {
+                        let r = results.next().unwrap_or_default();
+                        let m = ev.as_object_mut().unwrap();
+                        m.insert("crashed".into(), json!(!(r == "ok" || r.starts_with("panic"))));
+                        m.insert("panicked".into(), json!(r.starts_with("panic")));
+                        m.insert("after".into(), json!(r));
+                    }
+                    self.t.emit(ev);
+                }
+            }
+        }
+        self.to_exercise = 0;
     }
 }
 
@@ -101,16 +145,16 @@ fn run_candidate(cx: &mut Ctx, fam: &str, corr: &str, p: &Parts) {
     cx.candidates += 1;
     let is_nc = corr.starts_with("null_count");
     if !is_nc {
-        cx.emit("ArrayData::try_new", "data", fam, corr, false, p.dump(false), entries::try_new(p), true);
+        cx.emit("try_new", "ArrayData::try_new", "data", fam, corr, false, p.dump(false), entries::try_new(p), true);
     }
-    cx.emit("ArrayDataBuilder::build", "data", fam, corr, false, p.dump(true), entries::build(p, false), !is_nc);
+    cx.emit("build", "ArrayDataBuilder::build", "data", fam, corr, false, p.dump(true), entries::build(p, false), !is_nc);
     if corr == "none" || corr.contains("misaligned") {
-        cx.emit("ArrayDataBuilder::align_buffers+build", "data", fam, corr, true, p.dump(true), entries::build(p, true), true);
+        cx.emit("build_align", "ArrayDataBuilder::align_buffers+build", "data", fam, corr, true, p.dump(true), entries::build(p, true), true);
     }
-    cx.emit("build_unchecked+validate_full", "data", fam, corr, false, p.dump(true), entries::unchecked_then_validate_full(p), false);
+    cx.emit("vfull", "build_unchecked+validate_full", "data", fam, corr, false, p.dump(true), entries::unchecked_then_validate_full(p), false);
     if !is_nc {
         let (name, v) = entries::typed(p);
-        cx.emit(&name, "typed", fam, corr, false, p.dump(false), v, true);
+        cx.emit("typed", &name, "typed", fam, corr, false, p.dump(false), v, true);
         let re_ok = corr == "none" || corr.starts_with("run_end") || corr.starts_with("length_") || corr.starts_with("len_")
             || corr.starts_with("offset_") || corr.starts_with("last_run_end");
         if re_ok && !corr.starts_with("run_ends_have") && !corr.starts_with("run_ends_all") {
@@ -119,12 +163,12 @@ fn run_candidate(cx: &mut Ctx, fam: &str, corr: &str, p: &Parts) {
                     Ok(()) => None,
                     Err(e) => Some(e),
                 };
-                let mut ev = json!({"ev": "cand", "entry": "RunEndBuffer::new", "cls": "typed", "fam": fam, "corr": corr, "aligns": false,
+                let mut ev = json!({"ev": "cand", "e": "run_end_buffer", "entry": "RunEndBuffer::new", "cls": "typed", "fam": fam, "corr": corr, "aligns": false,
                     "accepted": v.is_none(), "d": p.dump(false), "has_got": false, "after": if v.is_none() { "ok" } else { "none" },
+                    "crashed": false, "panicked": false,
                     "note": short(&v.unwrap_or_default())});
                 let _ = &mut ev;
-                cx.events += 1;
-                cx.t.emit(ev);
+                cx.raw(ev);
             }
         }
     }
@@ -137,7 +181,7 @@ fn run_candidate(cx: &mut Ctx, fam: &str, corr: &str, p: &Parts) {
                     Err(e) => Verdict::Rejected(e),
                 };
                 // from_ffi re-aligns by itself; the dump is taken after the import
-                cx.emit("to_ffi+from_ffi+validate_full", "data", fam, corr, false, cand, v, true);
+                cx.emit("ffi", "to_ffi+from_ffi+validate_full", "data", fam, corr, false, cand, v, true);
             }
         }
     }
@@ -180,7 +224,7 @@ fn ffi_tampered(cx: &mut Ctx, fam: &str, d: &ArrayData) {
                 Ok(()) => Verdict::Accepted(imp),
                 Err(e) => Verdict::Rejected(e),
             };
-            cx.emit("to_ffi+tamper+from_ffi+validate_full", "data", fam, name, false, cand, v, true);
+            cx.emit("ffi_tamper", "to_ffi+tamper+from_ffi+validate_full", "data", fam, name, false, cand, v, true);
         }
     }
 }
@@ -202,14 +246,14 @@ fn deep(cx: &mut Ctx, fam: &str, corr: &str, p: &Parts) {
     let sdt = DataType::Struct(Fields::from(vec![Field::new("c", c.data_type().clone(), true)]));
     let n = c.len();
     let st = guarded(move || unsafe { ArrayData::builder(sdt).len(n).add_child_data(c).build_unchecked() });
-    for (name, d) in [("validate_full(list of candidate)", list), ("validate_full(struct of candidate)", st)] {
+    for (e, name, d) in [("vfull_in_list", "validate_full(list of candidate)", list), ("vfull_in_struct", "validate_full(struct of candidate)", st)] {
         let Ok(d) = d else { continue };
         let cand = dump::to_layout(&d);
         let v = match entries::validate_full(&d) {
             Ok(()) => Verdict::Accepted(d),
             Err(e) => Verdict::Rejected(e),
         };
-        cx.emit(name, "data", fam, corr, false, cand, v, true);
+        cx.emit(e, name, "data", fam, corr, false, cand, v, true);
     }
 }
 
@@ -291,12 +335,11 @@ fn batches(cx: &mut Ctx, rng: &mut Rng, reps: usize) {
                 Some(r) => ("RecordBatch::try_new_with_options(row_count)", guarded(move || RecordBatch::try_new_with_options(s2, c2, &RecordBatchOptions::new().with_row_count(Some(r))))),
             };
             let accepted = matches!(r, Ok(Ok(_)));
-            cx.events += 1;
             if accepted {
                 cx.accepted += 1;
             }
-            cx.t.emit(json!({"ev": "candbatch", "entry": entry, "corr": corr, "accepted": accepted, "schema": sd, "cols": cd, "nrows": nrows}));
-            cx.t.next_episode();
+            cx.raw(json!({"ev": "candbatch", "e": "batch", "entry": entry, "corr": corr, "accepted": accepted, "schema": sd, "cols": cd, "nrows": nrows}));
+            cx.next_episode();
         }
     }
 }
@@ -329,9 +372,13 @@ fn zoo() -> Vec<DataType> {
 fn main() {
     let args = Args::parse();
     vcore::quiet_panics();
+    if args.driver == "probe" {
+        probe::run();
+        return;
+    }
     let mut rng = Rng::new(args.seed);
-    let mut cx = Ctx { t: Shards::create(&args.out, "layout", 14), events: 0, accepted: 0, candidates: 0, exercised: 0 };
-    let reps = args.scale(2, 16);
+    let mut cx = Ctx { t: Shards::create(&args.out, "layout", 14), pending: vec![], to_exercise: 0, events: 0, accepted: 0, candidates: 0, exercised: 0, ex_ms: 0 };
+    let reps = args.scale(1, 16);
     for dt in zoo() {
         let fam = dump::type_desc(&dt)["k"].as_str().unwrap().to_string();
         for rep in 0..reps {
@@ -346,7 +393,7 @@ fn main() {
             let data = a.to_data();
             let p0 = Parts::of(&data, &mut rng);
             let mut variants = vec![p0.clone()];
-            if p0.len >= 3 && !matches!(dt, DataType::RunEndEncoded(_, _)) || p0.len >= 3 {
+            if p0.len >= 3 {
                 variants.push(p0.slice(1, p0.len - 2, &mut rng));
             }
             for (vi, p) in variants.iter().enumerate() {
@@ -354,10 +401,10 @@ fn main() {
                 cands.extend(corruptions(p, &mut rng));
                 for (corr, c) in &cands {
                     run_candidate(&mut cx, &fam, corr, c);
-                    if rep < 2 {
+                    if rep < 1 {
                         deep(&mut cx, &fam, corr, c);
                     }
-                    cx.t.next_episode();
+                    cx.next_episode();
                 }
                 if vi == 0 {
                     ffi_tampered(&mut cx, &fam, &data);
@@ -368,6 +415,7 @@ fn main() {
     let breps = args.scale(40, 600);
     batches(&mut cx, &mut rng, breps);
     let _ = Buffer::from_vec(Vec::<u8>::new());
+    cx.flush();
     let n = cx.t.finish();
-    println!("DRIVER c09 events={n} candidates={} accepted={} exercised={}", cx.candidates, cx.accepted, cx.exercised);
+    println!("DRIVER c09 events={n} candidates={} accepted={} exercised={} exercise_ms={}", cx.candidates, cx.accepted, cx.exercised, cx.ex_ms);
 }
